@@ -1296,6 +1296,27 @@ func c11Exec(scAny any, c *simcheck.Ctx) *simcheck.Violation {
 			if l := lowered(); l != "" {
 				return simcheck.V("upgrade-lowers", "%s: upgrading all lowered %s", what, l)
 			}
+			// "contains the resolved version": every project ends at least at the highest tag
+			// of the major version it was at
+			for p, ov := range oldBL {
+				if p == "" {
+					continue
+				}
+				want := ov
+				for pi := range sc.Projects {
+					if sc.Projects[pi].path(sc) == p {
+						for _, tv := range sc.Projects[pi].Versions {
+							if semver.Major(tv.Version) == semver.Major(ov) && semver.Compare(tv.Version, want) > 0 {
+								want = tv.Version
+							}
+						}
+					}
+				}
+				if nv := newBL[p]; semver.Compare(nv, want) < 0 {
+					return simcheck.V("upgrade-all-misses", "%s: %s was at %s and its highest %s tag is %s, but after upgrading all it is at %q", what, p, ov, semver.Major(ov), want, nv)
+				}
+			}
+			c.St.Count("upgrade_all_checked_against_the_highest_tags", 1)
 		case "get":
 			qpath, query := project.SplitPathVersion(op.Query)
 			if query != "" && semver.Major(query) == query {
